@@ -18,7 +18,7 @@ EXTERNS = {
     "workspace2path": Extern("workspace2path", "res_pv", 1),
     "container_group2name": Extern("container_group2name", "res_pv", 1),
     # hand-modelled in Model/UiCodec.v (InputValidation over the fixed ui_validations table)
-    "InputFile.ui_validation": Extern("ui_validation", "res_pv", 1),
+    "InputFile.ui_validation": Extern("(ui_validation_with ui_validations_table)", "res_pv", 1),
 }
 
 SHARED_UTILS = [
@@ -70,8 +70,57 @@ FILES = [
     ("PyLite_Validators.v", "geoh5py/shared/validators.py: validate bodies", VALIDATORS,
      ["From GVgen Require Import PyLite_SharedUtils."]),
     ("PyLite_InputFile.v", "geoh5py/ui_json/input_file.py: demote, stringify, numify", INPUT_FILE,
-     ["From GV Require Import Model.UiForms.", "From GVgen Require Import PyLite_SharedUtils PyLite_UiUtils."]),
+     ["From GV Require Import Model.Enforcers Model.UiForms.", "From GVgen Require Import PyLite_SharedUtils PyLite_UiUtils Table_UiValidations."]),
 ]
+
+
+TYPE_COQ = {"str": "TStr", "float": "TFloat", "int": "TInt", "bool": "TBool", "Entity": "TEntity", "UUID": "TUuid",
+            "PropertyGroup": "TPropertyGroup", "Path": "TPath", "Workspace": "TWorkspace", "list": "TList", "dict": "TDict"}
+
+
+def _table_term(node):
+    """a literal rule table (dict of dicts of bools / strings / lists of strings / lists of types) -> Coq pv term"""
+    import ast
+    if isinstance(node, ast.Dict):
+        items = []
+        for k, v in zip(node.keys, node.values):
+            if not (isinstance(k, ast.Constant) and isinstance(k.value, str)):
+                raise Refuse("rule table: non-string key")
+            items.append(f'(PStr "{k.value}", {_table_term(v)})')
+        return "PDict [" + "; ".join(items) + "]"
+    if isinstance(node, ast.List):
+        return "PList [" + "; ".join(_table_term(x) for x in node.elts) + "]"
+    if isinstance(node, ast.Constant) and isinstance(node.value, bool):
+        return "PBool " + ("true" if node.value else "false")
+    if isinstance(node, ast.Constant) and isinstance(node.value, str):
+        if '"' in node.value or not all(32 <= ord(c) < 127 for c in node.value):
+            raise Refuse("rule table: string constant")
+        return f'PStr "{node.value}"'
+    if isinstance(node, ast.Name) and node.id in TYPE_COQ:
+        return "PType " + TYPE_COQ[node.id]
+    if isinstance(node, ast.Call) and ast.unparse(node) == "type(None)":
+        return "PType TNoneType"
+    raise Refuse("rule table: unsupported literal " + ast.unparse(node))
+
+
+def extract_tables(repo, verif):
+    """constants.py::ui_validations and base_validations -> coq/generated/Table_UiValidations.v"""
+    import ast
+    src = (Path(repo) / "geoh5py/ui_json/constants.py").read_text()
+    tree = ast.parse(src)
+    found = {}
+    for n in tree.body:
+        if isinstance(n, ast.Assign) and len(n.targets) == 1 and isinstance(n.targets[0], ast.Name) \
+                and n.targets[0].id in ("ui_validations", "base_validations"):
+            found[n.targets[0].id] = _table_term(n.value)
+    if set(found) != {"ui_validations", "base_validations"}:
+        raise Refuse("constants.py: ui_validations / base_validations literal not found")
+    text = ("(* GENERATED by tools/pylite/units.py from geoh5py/ui_json/constants.py - do not edit. *)\n"
+            "From Coq Require Import String.\nFrom GV Require Import Prelude.Base Model.PyVal.\nLocal Open Scope string_scope.\n\n"
+            f"Definition ui_validations_table : pv :=\n  {found['ui_validations']}.\n\n"
+            f"Definition base_validations_table : pv :=\n  {found['base_validations']}.\n")
+    write_if_changed(Path(verif) / "coq" / "generated" / "Table_UiValidations.v", text)
+    return {"Table_UiValidations.v": 2}
 
 
 def regenerate_all(repo, verif, only=None):
@@ -88,4 +137,6 @@ def regenerate_all(repo, verif, only=None):
         text = unit.emit(header, imports, members={s.qualname for s in sp})
         write_if_changed(gen / fname, text + "\n")
         out[fname] = len(sp)
+    if only is None or "Table_UiValidations.v" in only:
+        out.update(extract_tables(repo, verif))
     return {"tables": out}
